@@ -357,7 +357,8 @@ PROPS = {
     "C18": {
         "level": "model_checking",
         "technique": "stateless depth-first exploration (CHESS style, preemption-bounded, replay-based) of all interleavings of the real accept-loop poll and the real signal handler at hook-provided scheduling points, with a real SIGINT, one fresh process per schedule; plus exhaustive enumeration of session mixes x completion orders",
-        "engine": "vmc (+ shutdown_child, one process per schedule)",
+        "engine": "vmc (+ shutdown_child, one process per schedule) + harness_loom (loom over the extracted WaitGroup source)",
+        "custom_runner": "c18_runner",
         "level_text": "(a) Interleaving space of the lost-wake-up protocol: threads P (the poll of howl's until_interrupt: before polling accept / after reading the flag as false / after publishing the waker) and H (ctrlc's handler thread: before store / after store / after swap / after wake) are stepped one atomic action at a time by a controller; environment events SIG (real SIGINT) and CONN (a client connects). All schedules within a preemption bound are explored depth-first by re-execution (quick: bound 4 without CONN, bound 2 with one CONN; thorough: bounds 8 / 5 / 4 for 0 / 1 / 2 CONN - bound 8 is the complete interleaving space for the first poll). Quiescence is decided (no enabled actor), the oracle is: howl returned <=> SIGINT was raised. (b) In-flight sessions: 0..2 (quick) / 0..3 (thorough) sessions of kinds {handler blocked on a harness gate, idle keep-alive connection} x every permutation of {SIGINT, session k finishes}; after every event: returned == (signal seen and all sessions finished), and every blocked handler still delivers its response.",
         "level_note": "Trusted: hook H6 (scheduling points placed between the atomic operations; the points themselves do not change the operations), the controller's canonical choice order, the child replaying a prefix exactly (any divergence is exit 2). Not covered: weak-memory reorderings of WaitGroup's Relaxed/Release/Acquire counter (the controller serialises at hook points; x86-TSO), runtimes other than tokio (glommio's Mutex<Vec<Waker>> variant). The Promela extension of DESIGN section 5 was not built (section 12).",
         "jobs": {"quick": 16, "thorough": 16},
